@@ -67,6 +67,8 @@ def evaluate(case):
     from eyecite.utils import is_balanced_html
 
     res = Res()
+    if case.get("kind") == "series":
+        return _eval_series(case, res)
     tree = case["tree"]
     if not _valid_tree(tree):
         res.label("out-of-domain")
@@ -130,6 +132,54 @@ def evaluate(case):
     return res
 
 
+def _eval_series(case, res):
+    """One plain-text object annotated against a series of marked-up versions of equal length that exist one at a
+    time (built, annotated in both modes, checked, dropped): every output must be well-formed with the text intact."""
+    from lxml import etree
+
+    from eyecite import annotate_citations
+
+    words = case["words"]
+    plain = " ".join(words)
+    spans, at = [], 0
+    for w in words:
+        spans.append((at, at + len(w)))
+        at += len(w) + 1
+    anns = [(sp, f'<a id="{k}">', "</a>") for k, sp in enumerate(spans)]
+    res.label("series")
+    res.nontrivial = len(set(case["order"])) >= 2
+    for step, j in enumerate(case["order"]):
+        j %= len(words)
+        tag = case["tags"][step % len(case["tags"])]
+        src = "<p>" + " ".join(f"<{tag}>{w}</{tag}>" if k == j else w for k, w in enumerate(words)) + "</p>"
+        for mode in ("skip", "wrap"):
+            out = call(annotate_citations, plain, anns, source_text=src, unbalanced_tags=mode, use_dmp=case.get("dmp", True))
+            if isinstance(out, Raised):
+                res.v(f"raises[{mode}]:" + out.bucket(), f"series step {step}: {out!r} src={src!r}")
+                return res
+            try:
+                root = etree.fromstring(f"<div>{out}</div>")
+            except etree.XMLSyntaxError as e:
+                res.v(f"ill-formed[{mode}]", f"series step {step} of {case['order']}: src={src!r} -> {out!r} ({e})")
+                return res
+            if "".join(root.itertext()) != plain:
+                res.v(f"text-changed[{mode}]", f"series step {step}: src={src!r} -> {out!r}")
+                return res
+            if mode == "wrap" and any(bf not in out for _, bf, _ in anns):
+                res.v("wrap-annotation-missing", f"series step {step} of {case['order']}: src={src!r} -> {out!r}")
+                return res
+            del out, root
+        del src
+    return res
+
+
+@st.composite
+def _series(draw):
+    words = draw(st.lists(st.sampled_from(["11111", "22222", "33333", "44444", "55555", "ABCD", "1 U.S. 1", "AB", "A"]), min_size=3, max_size=7))
+    return {"kind": "series", "words": words, "order": draw(st.lists(st.integers(0, 6), min_size=2, max_size=8)),
+            "tags": draw(st.lists(st.sampled_from(["u", "i", "b", "s"]), min_size=1, max_size=3)), "dmp": draw(st.integers(0, 3)) != 0}
+
+
 _text = st.lists(st.sampled_from(TXT), min_size=1, max_size=8).map("".join)
 _long_text = st.lists(st.sampled_from(TXT), min_size=30, max_size=60).map("".join)
 
@@ -182,4 +232,5 @@ def _case(draw, mode):
 
 def phases(tier):
     n = 20000 if tier == "quick" else 500000
-    return [Phase("trees-skip", "gen", strategy=lambda: _case("skip"), n=n // 2), Phase("trees-wrap", "gen", strategy=lambda: _case("wrap"), n=n // 2)]
+    return [Phase("trees-skip", "gen", strategy=lambda: _case("skip"), n=n // 2), Phase("trees-wrap", "gen", strategy=lambda: _case("wrap"), n=n // 2),
+            Phase("series-same-plain-object", "gen", strategy=_series, n=n // 10)]
